@@ -73,8 +73,9 @@ func c08Pair(c *core.Ctx) {
 		okRet := false
 		for _, r := range core.Returns(q) {
 			if len(r.Results) == 3 && isNilConst(r.Results[2]) {
-				okRet = strings.HasSuffix(sx.Of(r.Results[0]).String(), ").GetInfoByGlobalExitRoot(l.l1InfoTreeSyncer, ger)#0") &&
-					strings.Contains(sx.Of(r.Results[1]).String(), ").GetL1InfoTreeMerkleProofFromIndexToRoot(")
+				pr := sx.Of(r.Results[1]).String()
+				okRet = strings.HasSuffix(sx.Of(r.Results[0]).String(), ").GetInfoByGlobalExitRoot(l.l1InfoTreeSyncer, ger)#0") && !strings.HasPrefix(sx.Of(r.Results[0]).String(), "phi{") &&
+					strings.Contains(pr, ").GetL1InfoTreeMerkleProofFromIndexToRoot(") && strings.HasSuffix(pr, ", rootFromWhichToProve)#0") && !strings.HasPrefix(pr, "phi{")
 			}
 		}
 		c.Decide(ok && okRet, rule, "aggsender/query.(*L1InfoTreeDataQuerier).GetProofForGER#pair", q.Pos(), "returns the leaf found by that GER and the proof for (its index, the root asked for): "+detail)
